@@ -63,6 +63,7 @@ sfd_listener_close(void *arg)
 	for (int i = 0; i < l->listen_cnt; i++) {
 		nni_sfd_close_fd(l->listen_q[i]);
 	}
+	l->listen_cnt = 0;
 	nni_mtx_unlock(&l->mtx);
 }
 
